@@ -108,12 +108,20 @@ def direct_histories(seed, count):
     from tracklib.core.utils import priority_dict
     rnd = random.Random(seed)
     out = []
-    for _ in range(count):
+    for hno in range(count):
         pd = priority_dict()
         steps = []
-        for _s in range(rnd.randrange(1, 25)):
+        # every other history is a "decrease-key storm" (what Dijkstra does on parallel edges of decreasing weight): a few
+        # keys whose priorities keep going down, so that stale entries outnumber live ones, interleaved with pops
+        storm = hno % 2 == 1
+        nk = rnd.randrange(3, 7)
+        for _s in range(rnd.randrange(8, 45) if storm else rnd.randrange(1, 25)):
             op = rnd.choice(["set", "set", "set", "pop", "pop", "smallest", "del", "setdefault", "update"])
             k, v = rnd.randrange(0, 6), rnd.randrange(0, 4)
+            if storm:
+                op = "set" if (_s < nk or rnd.random() < 0.8) else rnd.choice(["pop", "smallest"])
+                k = _s if _s < nk else rnd.randrange(nk)
+                v = rnd.randrange(5, 30) if k not in pd else max(0, int(pd[k]) - rnd.randrange(0, 4))
             e = {"op": op, "k": k, "v": v, "res": -1, "raised": False}
             try:
                 if op == "set":
@@ -161,8 +169,10 @@ def run(ctx, quick):
     byid = {c_["id"]: c_ for c_ in cases}
     for i, clause in sorted(rej.items()):
         c_ = byid[i]
-        ctx.growth("priority_dict/%s/%s" % (c_["src"], clause), "priority_dict history (%s) %s: %s" %
-                      (c_["src"], [(s["op"], s["k"], s["v"], s["res"]) for s in c_["steps"]], clause), c_)
+        # handing out a key that does not have minimum priority breaks the routing itself; everything else is representation
+        report = ctx.violation if clause == "popped_key_not_of_minimum_priority" else ctx.growth
+        report("priority_dict/%s/%s" % (c_["src"], clause), "priority_dict history (%s) %s: %s" %
+               (c_["src"], [(s["op"], s["k"], s["v"], s["res"]) for s in c_["steps"]], clause), c_)
     ctx.extra["priority_queue_histories"] = {"routing": sum(1 for c_ in cases if c_["src"] == "routing"),
                                              "direct": sum(1 for c_ in cases if c_["src"] == "direct"),
                                              "steps": sum(len(c_["steps"]) for c_ in cases)}
